@@ -36,6 +36,15 @@ func newDomainRoutingTracker() *domainRoutingTracker {
 	}
 }
 
+// reset forgets every owner snapshot. It must accompany any wholesale clearing of domain_routing_map: the
+// tracker only sends the difference between what it believes the map holds and what it should hold.
+func (t *domainRoutingTracker) reset() {
+	t.mu.Lock()
+	defer t.mu.Unlock()
+	t.owners = make(map[string]domainRoutingOwnerSnapshot)
+	t.ips = make(map[[4]uint32]*domainRoutingIPState)
+}
+
 func cloneDomainRoutingIPSet(src map[[4]uint32]struct{}) map[[4]uint32]struct{} {
 	if len(src) == 0 {
 		return nil
